@@ -31,6 +31,8 @@ pub trait BlsSignatureProof:
             .duration_since(UNIX_EPOCH)
             .unwrap()
             .as_millis() as u64;
+        #[cfg(feature = "verif-hooks")]
+        let t = verif_hooks::clock_ms().unwrap_or(t);
         (Self::compute_y(u, t), t)
     }
 
@@ -153,6 +155,10 @@ pub trait BlsSignatureProof:
     ) -> BlsResult<()> {
         if let Some(tt) = timeout_ms {
             let now = SystemTime::now();
+            #[cfg(feature = "verif-hooks")]
+            let now = verif_hooks::clock_ms()
+                .and_then(|ms| UNIX_EPOCH.checked_add(Duration::from_millis(ms)))
+                .unwrap_or(now);
             let since = UNIX_EPOCH
                 .checked_add(Duration::from_millis(t))
                 .ok_or(BlsError::InvalidProof)?;
